@@ -12,7 +12,7 @@ from vlib.core import Result
 NAME = "lldata"
 LEAN_MODULE = "BluetoeModel.LlData"
 DRIVER = "drv_lldata"
-HARNESS_DESC = ("harness/lldata.cpp (real ll_data_pdu_buffer<TX,RX,mock radio>, 5 size/layout variants); C16 also "
+HARNESS_DESC = ("harness/lldata.cpp (real ll_data_pdu_buffer<TX,RX,mock radio>, 8 size/layout variants incl. three with data length extension, payloads up to 249 bytes); C16 also "
                 "harness/lldata/nrf52_ccm.cpp (the same with the real nrf52.cpp + security_tool_box.cpp on emulated registers)")
 HARNESS = {
     "default": dict(src="harness/lldata.cpp"),
@@ -28,7 +28,12 @@ HARNESS = {
 }
 
 # reset k -> (max body the central may send, max body the link layer may commit)
-CONFIGS = {0: (27, 27), 1: (27, 27), 2: (48, 48), 3: (27, 27), 4: (58, 58)}
+CONFIGS = {0: (27, 27), 1: (27, 27), 2: (48, 48), 3: (27, 27), 4: (58, 58),
+           # data length extension: max_rx_size = max_tx_size = 251 (the buffer's max_buffer_size, header included)
+           5: (249, 249), 6: (249, 249), 7: (249, 249)}
+DLE_CONFIGS = [5, 6, 7]
+# payload lengths around the boundaries of every narrower reading of the 8 bit length field (5, 6, 7 bit) and the ends
+BOUNDARY_LENGTHS = [1, 27, 31, 32, 33, 63, 64, 65, 127, 128, 129, 191, 192, 193, 248, 249, 250, 251]
 EMPTY = (1, b"")
 
 
@@ -57,7 +62,10 @@ def fields(line):
 # ------------------------------------------------------------------------------------------------
 def rand_body(rng, maxlen, nonempty=False):
     r = rng.random()
-    if r < 0.55:
+    if maxlen > 60 and r < 0.5:
+        # data length extension: emphasis on the boundary lengths (both directions use this function)
+        n = rng.choice([b for b in BOUNDARY_LENGTHS if b <= maxlen])
+    elif r < 0.6:
         n = rng.randrange(1, 5)
     elif r < 0.75:
         n = maxlen
@@ -152,6 +160,27 @@ def gen_raw_session(rng, faults, length=None):
             ops.append(rng.choice(["pending", "state"]))
     ops += ["free"] * 4 + ["state"]
     return ops
+
+
+def length_sweep_session(cfg, lengths=None, enc=None, fault_every=0):
+    """every payload length the buffer admits, in both directions, each PDU transmitted, acknowledged and delivered:
+    the link layer commits an L byte PDU, the central sends a new L byte PDU (answered by the committed PDU), an empty
+    PDU of the central acknowledges it. `enc`: ops that start encryption first (nrf52 harness). `fault_every`: every n-th
+    round the answer is lost once and the retransmission hits a MIC failure (as on a real encrypted link)."""
+    max_rx, max_tx = CONFIGS[cfg]
+    lengths = list(range(1, max(max_rx, max_tx) + 1)) if lengths is None else lengths
+    ops = ["reset %d" % cfg] + list(enc or [])
+    for i, n in enumerate(lengths):
+        body = bytes((n + j) % 256 for j in range(n))
+        if n <= max_tx:
+            ops.append("tx %d %s" % (2 if n % 2 else 3, hexs(body)))
+        c = hexs(body[:max_rx])
+        if fault_every and i % fault_every == fault_every - 1:
+            ops += ["ev ok 0 2 %s" % c, "ev mic 1 2 %s" % c]
+        else:
+            ops.append("ev ok 1 2 %s" % c)
+        ops += ["ev ok 1 1 -", "free"]
+    return ops + ["ev ok 1 1 -", "free", "free", "state"]
 
 
 TRAFFIC_SHAPES = {
@@ -477,7 +506,8 @@ def run_c15(ctx, replay_path=None):
     res = Result()
     faults = ["ok", "lost", "crc"]
     res.rule = ("sessions = reset k (k = <61,61>, <100,29>, <100,100> max size 50, <100,100> and <255,255> with the encrypted "
-                "PDU layout), then link layer ops (tx = allocate+commit, free = next_received+free_received, stop, pending, state) "
+                "PDU layout; <520,520>, <300,780> encrypted layout, <254,254> with max rx/tx size 251, payload lengths there drawn "
+                "around 27/32/64/128/192/249 and swept 1..249), then link layer ops (tx = allocate+commit, free = next_received+free_received, stop, pending, state) "
                 "interleaved with exchanges `ev f1 f2 msg`: a specification central (re)transmits, fault f1 in ok/lost/crc on the way "
                 "to the buffer (dispatched as the nRF52 ISR does: received / next_transmit / silence), f2 = answer reaches the central; "
                 "7 traffic/fault shapes incl. receive buffer kept full and long loss bursts; plus a smaller raw stream with arbitrary "
@@ -494,6 +524,8 @@ def run_c15(ctx, replay_path=None):
         sessions.append(gen_raw_session(ctx.rng, faults))
     depth = 6 if ctx.thorough else 4
     sessions += enumerate_patterns(depth)
+    # data length extension: every payload length 1..249 in both directions
+    sessions += [length_sweep_session(cfg) for cfg in (DLE_CONFIGS if ctx.thorough else DLE_CONFIGS[:1])]
     if ctx.thorough:
         sessions += enumerate_patterns(4, cfg=1) + enumerate_patterns(4, cfg=3)
     res.extra["exhaustive_small_scope"] = ("every pattern over {(ok,answer received),(ok,answer lost),(lost),(crc,answer received)} "
@@ -521,7 +553,9 @@ def run_c17(ctx, replay_path=None):
     alphabet = [("ok", 1), ("ok", 0), ("mic", 1), ("mic", 0), ("lost", 0)]
     depth = 5 if ctx.thorough else 3
     sessions += enumerate_patterns(depth, alphabet)
-    res.extra["exhaustive_small_scope"] = "every pattern over %s of %d exchanges x 3 traffic shapes" % (alphabet, depth)
+    sessions.append(length_sweep_session(6 if ctx.thorough else 5, fault_every=2))
+    res.extra["exhaustive_small_scope"] = ("every pattern over %s of %d exchanges x 3 traffic shapes; every payload length 1..249 with a "
+                                           "MIC failing retransmission every second PDU" % (alphabet, depth))
     evaluate(ctx, res, "C17", sessions, proj_c17)
     res.count("mic_faults", sum(1 for s in sessions for o in s if o.startswith(("ev mic", "rx mic"))))
     res.samples = [" ; ".join(s[:10]) for s in sessions[len(corpus_sessions(ctx)):][:3]]
@@ -638,7 +672,7 @@ def check_counter(ctx, res):
 def gen_enc_session(rng, faults):
     """plain exchanges, LL encryption start as the link layer does it (setup_encryption, start_receive_encrypted,
     start_transmit_encrypted), traffic with faults, sometimes pause / restart with a new IV"""
-    cfg = rng.choice([3, 4, 4, 0])
+    cfg = rng.choice([3, 4, 4, 0, 6, 6, 5])
     max_rx, max_tx = CONFIGS[cfg]
     ops = ["reset %d" % cfg]
 
@@ -790,6 +824,10 @@ def check_nonce(ctx, res):
     faults = ["ok", "lost", "crc", "mic"]
     sessions = [ops for ops in corpus_sessions(ctx) if any(o.startswith("enc") for o in ops)]
     sessions.append(carry_session())
+    # data length extension under encryption: boundary payload lengths (and, thorough, all lengths) in both directions
+    enc_on = ["enc setup %s %s 24abdcba %s" % ("22" * 16, "33" * 8, "0102030405060708bebaafde"), "enc rx", "enc rxtx"]
+    near = sorted(set(x for b in BOUNDARY_LENGTHS for x in (b - 1, b, b + 1) if 1 <= x <= 249))
+    sessions.append(length_sweep_session(6, None if ctx.thorough else near, enc=enc_on, fault_every=4))
     for _ in range(1500 if ctx.thorough else 150):
         sessions.append(gen_enc_session(ctx.rng, faults))
     impl, model, dis = run_pair(ctx, sessions, proj_nonce, "nrf52")
@@ -860,7 +898,18 @@ def run_c16(ctx, replay_path=None):
     alphabet = [("ok", 1), ("ok", 0), ("mic", 1), ("lost", 0), ("crc", 1)]
     depth = 5 if ctx.thorough else 3
     sessions += enumerate_patterns(depth, alphabet, cfg=3)
-    res.extra["exhaustive_small_scope"] = "every pattern over %s of %d exchanges x 3 traffic shapes (encrypted layout)" % (alphabet, depth)
+    # data length extension: every payload length 1..249 (= every non-zero value of the 8 bit length field the buffer
+    # admits) transmitted + acknowledged and received + acknowledged, on all three DLE configurations; once more with
+    # lost answers / MIC-failing retransmissions
+    near = sorted(set(x for b in BOUNDARY_LENGTHS for x in (b - 1, b, b + 1) if 1 <= x <= 249))
+    if ctx.thorough:
+        sessions += [length_sweep_session(cfg) for cfg in DLE_CONFIGS] + [length_sweep_session(6, fault_every=3)]
+    else:
+        sessions += [length_sweep_session(5), length_sweep_session(6, near, fault_every=3), length_sweep_session(7, near)]
+    res.extra["exhaustive_small_scope"] = ("every pattern over %s of %d exchanges x 3 traffic shapes (encrypted layout); every payload "
+                                           "length 1..249 in both directions on <520,520> (thorough: also <300,780> encrypted layout, <254,254>; quick: there "
+                                           "the lengths within 1 of 27, 32, 64, 128, 192, 249, ...)"
+                                           % (alphabet, depth))
     evaluate(ctx, res, "C16", sessions, proj_c16, check_counters=True)
     check_counter(ctx, res)
     check_nonce(ctx, res)
@@ -893,7 +942,7 @@ PROPS = {
                    "arbitrary allocation outcomes and arbitrary interleaved link layer calls; full_never_acks and tx_until_acked "
                    "hold in every state.",
         level_note="Trusted: Lean kernel + standard axioms; the rings are abstracted to FIFO queues (C18); the central is the "
-                   "specification automaton; model = code only as far as the differential check samples it (5 size/layout variants, "
+                   "specification automaton; model = code only as far as the differential check samples it (8 size/layout variants incl. three with data length extension, payloads up to 249 bytes, "
                    "random + exhaustive small fault patterns).",
         design_ref="§5 C15",
         assumptions=ASSUME,
@@ -901,8 +950,9 @@ PROPS = {
     "C16": dict(
         theorems=["BluetoeModel.LlData.rx_counter_eq_new_nonempty", "BluetoeModel.LlData.tx_counter_eq_acked_nonempty",
                   "BluetoeModel.LlData.counter_increment_succ", "BluetoeModel.LlData.counter_bytes_value",
-                  "BluetoeModel.LlData.ccm_nonce_no_reuse", "BluetoeModel.LlData.ccm_nonce_layout"],
-        witnesses=["BluetoeModel.LlData.tx_counter_empty_commit_witness"],
+                  "BluetoeModel.LlData.ccm_nonce_no_reuse", "BluetoeModel.LlData.ccm_nonce_layout",
+                  "BluetoeModel.LlData.nonempty_is_full_length_octet"],
+        witnesses=["BluetoeModel.LlData.tx_counter_empty_commit_witness", "BluetoeModel.LlData.six_bit_length_is_not_nonempty"],
         harness_keys=["default", "nrf52"],
         run=run_c16,
         level="proof",
